@@ -61,6 +61,7 @@ def setup(prune=False):
             sys.path.insert(0, p)
     if REPO not in sys.path:
         sys.path.insert(1, REPO)
+    make_numba_cache_process_safe()
     try:
         devnull = os.open(os.devnull, os.O_RDONLY)
         os.dup2(devnull, 0)
@@ -68,6 +69,48 @@ def setup(prune=False):
     except OSError:
         pass
     return key
+
+
+def make_numba_cache_process_safe():
+    """numba's on-disk cache (numba/core/caching.py IndexDataCacheFile.save: load index -> pick the first unused data
+    file number -> write index -> write data, no lock) is not safe when several shard processes compile *different*
+    signatures of the same function into a cold cache at the same time: two of them pick the same data file name, one
+    index wins, and later loads return machine code compiled for another signature (observed by the C10 work: sporadic
+    bogus AssertionErrors in cold 16-shard runs, never single-process, and the corruption persists in the directory).
+    Serialise save (exclusive) and load (shared) per index file with flock."""
+    try:
+        import fcntl
+        from numba.core import caching
+    except Exception:
+        return
+    cls = caching.IndexDataCacheFile
+    if getattr(cls, '_verif_locked', False):
+        return
+    orig_save, orig_load = cls.save, cls.load
+
+    def _locked(self, mode, fn, *args):
+        try:
+            fd = os.open(self._index_path + '.lock', os.O_CREAT | os.O_RDWR, 0o644)
+        except OSError:
+            return fn(self, *args)
+        try:
+            fcntl.flock(fd, mode)
+            return fn(self, *args)
+        finally:
+            try:
+                fcntl.flock(fd, fcntl.LOCK_UN)
+            finally:
+                os.close(fd)
+
+    def save(self, key, data):
+        return _locked(self, fcntl.LOCK_EX, orig_save, key, data)
+
+    def load(self, key):
+        return _locked(self, fcntl.LOCK_SH, orig_load, key)
+
+    cls.save = save
+    cls.load = load
+    cls._verif_locked = True
 
 
 def quiet_tidalpy():
